@@ -153,7 +153,7 @@ def _block_slices(ctx):
 def run(ctx):
     _ramp_in_progress(ctx)
     n_h = _block_slices(ctx)
-    ctx.require(n_h >= 1, "no block slice of the bound vectors found in the CHP classes")
+    ctx.require(n_h >= 1, "no block slice of the bound vectors found in the CHP classes", rules=['C06.h'])
     p = ctx.p
     chp = p.cls("CHPAsset")
     ev = lf.LinEval(_names_atom)
@@ -196,7 +196,7 @@ def run(ctx):
                        "the column belongs to step (%s) but the factor %s is taken at step (%s): virtual dispatch = power + factor * heat "
                        "is not the same linear form here as in the capacity rows - with a time-varying conversion factor the ramp "
                        "rows admit steps they should forbid (3 -> 10 with ramp 1)" % (lf.show(k), au.short(s, 40), lf.show(j)), node=st)
-    ctx.require(n >= 6, "fewer than 6 indexed factor sites on heat columns found in CHPAsset")
+    ctx.require(n >= 6, "fewer than 6 indexed factor sites on heat columns found in CHPAsset", rules=['C06.a'])
 
     # ================================================================= C06.b
     fuel = chp.methods.get("_add_fuel_consumption")
@@ -204,7 +204,7 @@ def run(ctx):
         cands = [m for m in chp.methods.values() if any(au.const_str(x) == "fuel" for x in au.walk_local(m.node)) and m.name != "__init__"
                  and any(isinstance(x, ast.Call) and au.method_name(x) == "concat" for x in au.walk_local(m.node))]
         fuel = cands[0] if cands else None
-    ctx.require(fuel is not None, "the method that adds fuel rows to the mapping vanished")
+    ctx.require(fuel is not None, "the method that adds fuel rows to the mapping vanished", rules=['C06.b'])
     org = ctx.origins(fuel, values_only=True)
     blocks = []   # one per `frame = op.mapping[<var_name == literal> ...].copy()`
     cur = None
@@ -269,14 +269,14 @@ def run(ctx):
             ctx.ob("C06.b", fuel, "rows for %s%s: factor" % (sel, "" if b is None else " (node %s)" % b), ok,
                    "factor %s; documented: %s, drawn from the fuel node (negative)%s" % (
                        au.short(st.value, 60), want[1], "" if div_ok else " - fuel efficiency must divide"), node=st)
-    ctx.require(n_b >= 3, "fewer than 3 fuel row blocks found")
+    ctx.require(n_b >= 3, "fewer than 3 fuel row blocks found", rules=['C06.b'])
 
     # ================================================================= C06.c
     sd = None
     for m in chp.methods.values():
         if "start" in m.name and "shutdown" in m.name and m.name != "__init__":
             sd = m
-    ctx.require(sd is not None, "the method defining start / shutdown rows vanished")
+    ctx.require(sd is not None, "the method defining start / shutdown rows vanished", rules=['C06.c'])
 
     def triples(loop):
         out = set()
